@@ -1,5 +1,5 @@
 CONSTANTS
-  Alphabet = {"> [a]: /u", "  [a]: /u", "    [a]: /u", "[a]: <w x>", "[a]: /u (t)", "[a] b", "> [a]", "# [a]", "[a]: /u", "", "---", "- [a]: /u", "  (u)", "[a]:/u"}
+  Alphabet = {"> [a]: /u", "  [a]: /u", "    [a]: /u", "[a]: <w x>", "[a]: /u (t)", "[a]: /u (t(u))", "[a] b", "> [a]", "# [a]", "[a]: /u", "", "---", "- [a]: /u", "  (u)", "[a]:/u"}
   MaxLines = 3
 SPECIFICATION Spec
 INVARIANT TypeOK
